@@ -38,3 +38,11 @@ Lemma gen_body_from_length n i salt : length (gen_body_from n i salt) = n.
 Proof. revert i; induction n as [|n IH]; intros i; cbn [gen_body_from length]; [reflexivity|]. rewrite IH. reflexivity. Qed.
 Lemma gen_body_length salt n : length (gen_body salt n) = n.
 Proof. apply gen_body_from_length. Qed.
+
+(* heterogeneous pointwise comparison *)
+Fixpoint list_rel {A B} (r : A -> B -> bool) (a : list A) (b : list B) : bool :=
+  match a, b with
+  | [], [] => true
+  | x :: a', y :: b' => r x y && list_rel r a' b'
+  | _, _ => false
+  end.
